@@ -210,6 +210,14 @@ fn cmd_hash(a: &Args) -> i32 {
     for b in 0..=255u8 {
         inputs.push(vec![b]);
     }
+    let count = if let Some(f) = a.get("only") {
+        // replay: exactly one byte string (a JSON array of byte values)
+        let j: J = serde_json::from_str(&std::fs::read_to_string(f).expect("read --only")).expect("--only json");
+        inputs = vec![avro_verif_harness::term::j_bytes(&j)];
+        0
+    } else {
+        count
+    };
     for _ in 0..count {
         let n = rng.below(maxlen + 1);
         let mode = rng.below(4);
